@@ -288,3 +288,9 @@ func vEmit(id, status string, failures, covered []string, detail string) {
 	b, _ := json.Marshal(map[string]interface{}{"id": id, "status": status, "failures": failures, "covered": covered, "detail": detail})
 	fmt.Printf("VREPLAY %s\n", b)
 }
+
+// vRecord*: the value the real code computed becomes part of the reachability label (see rt_sym.go)
+func vRecordBool(label string, v bool)     { vCover(fmt.Sprintf("rec:%s=%v", label, v)) }
+func vRecordU64(label string, v uint64)    { vCover(fmt.Sprintf("rec:%s=%d", label, v)) }
+func vRecordString(label string, v string) { vCover(fmt.Sprintf("rec:%s=%x", label, v)) }
+func vRecordBytes(label string, v []byte)  { vCover(fmt.Sprintf("rec:%s=%x", label, v)) }
